@@ -267,9 +267,10 @@ def _run(argv, suites):
     return r, list(W.TRACE), cap.text(), list(SEEDS)
 
 
-def modes(mode, sA, sB, seed_given, r0, r1, r2, r3, r4):
+def modes(mode, sA, sB, seed_given, r0, r1, r2, r3, r4, spell=0):
     global LAST
     mode = pick(MODES, mode)
+    spell = ci(spell, 0, 2)      # how an explicit seed is spelled: two tokens, --shuffle-seed=N, unambiguous abbreviation
     sizes = [ci(sA, 0, 3), ci(sB, 2, 3), 2]
     seed_given = cb(seed_given)
     install_rng([r0, r1, r2, r3, r4])
@@ -286,7 +287,7 @@ def modes(mode, sA, sB, seed_given, r0, r1, r2, r3, r4):
 
         def suites():
             return [unittest.TestSuite(flat)]
-    base = ['--shuffle'] + (['--shuffle-seed', '42'] if seed_given else [])
+    base = ['--shuffle'] + ([['--shuffle-seed', '42'], ['--shuffle-seed=42'], ['--shuffle-se', '42']][spell] if seed_given else [])
     why = None
     try:
         _r0, tr0, out0, seeds0 = _run(base, suites)
@@ -375,6 +376,71 @@ def modes_reach(*a):
     return LAST[3] is None and any(list(v) != sorted(v) for _k, v in LAST[4][0]) and LAST[4][1] >= 2
 
 
+USEL = ['nonunit', 'unit', 'layerZ', 'nonunit_j2', 'list_nonunit', 'unit_and_nonunit']
+
+
+def unitsel(mode, sU, sZ, r0, r1, r2, r3, r4):
+    """Selecting or deselecting the unit-test layer (-u / -f / --layer) must not change the order inside the layers that
+    remain: one RNG is shared by all layers in sorted-name order, and 'zope.testrunner.layer.UnitTests' sorts between
+    'w.A' and 'zz.Z'."""
+    global LAST
+    mode = pick(USEL, mode)
+    sU, sZ = ci(sU, 0, 3), ci(sZ, 2, 3)
+    install_rng([r0, r1, r2, r3, r4])
+    LB.install()
+    R.time = TickClock
+    SH.time = TickClock
+    with untraced():
+        A = W.mk_layer('A', (), hooks='st')
+        Z = W.mk_layer('Z', (), hooks='st', module='zz')
+        ta = [W.mk_test('a%d' % i, W.PASS, layer=A) for i in range(2)]
+        tz = [W.mk_test('z%d' % i, W.PASS, layer=Z) for i in range(sZ)]
+        tu = [W.mk_test('u%d' % i, W.PASS) for i in range(sU)]
+        flat = tz + tu + ta
+
+        def suites():
+            return [unittest.TestSuite(flat)]
+    base = ['--shuffle', '--shuffle-seed', '42']
+    extra = {'nonunit': ['-f'], 'unit': ['-u'], 'layerZ': ['--layer', 'zz.Z'], 'nonunit_j2': ['-f', '-j2'], 'list_nonunit': ['-f', '--list-tests'],
+             'unit_and_nonunit': ['-u', '-f']}[mode]
+    why = None
+    summary = None
+    try:
+        _r0, tr0, out0, seeds0 = _run(base, suites)
+        _r1, tr1, out1, seeds1 = _run(base + extra, suites)
+    except Misuse:
+        why = MISUSE[0]
+    if why is None:
+        with untraced():
+            ref = {k: [n for _p, n in v] for k, v in _order(tr0).items()}
+            if mode == 'list_nonunit':
+                got = {k[0].upper() if k != 'UnitTests' else 'U': v for k, v in _listed(out1).items()}
+                if any(e[1] in ('test', 'su', 'td') for e in tr1):
+                    why = '--list-tests executed test or layer code'
+            else:
+                got = {k: [n for _p, n in v] for k, v in _order(tr1).items()}
+            all_layers = {'A', 'Z'} | ({'U'} if sU else set())
+            want = {'nonunit': {'A', 'Z'}, 'unit': {'U'}, 'layerZ': {'Z'}, 'nonunit_j2': {'A', 'Z'}, 'list_nonunit': {'A', 'Z'},
+                    'unit_and_nonunit': all_layers}[mode] & all_layers
+            if why is None and set(ref) != all_layers:
+                why = 'reference run executed layers %r' % sorted(ref)
+            if why is None and {k for k, v in got.items() if v} != want:
+                why = 'mode %s ran/listed layers %r, expected %r' % (mode, sorted(got), sorted(want))
+            if why is None:
+                for k in sorted(want):
+                    if got[k] != ref[k]:
+                        why = 'layer %s: order %r in mode %s differs from %r in the full run (same seed, same stream)' % (k, got[k], mode, ref[k])
+                        break
+            summary = tuple(sorted((k, tuple(v)) for k, v in ref.items()))
+    LAST = (mode, sU, sZ, why, summary)
+    return why is None
+
+
+def unitsel_reach(*a):
+    unitsel(*a)
+    return LAST[3] is None and LAST[4] and any(list(v) != sorted(v) for _k, v in LAST[4])
+
+
 # ------------------------------------------------------------------ discovery order feeding the shuffle
 
 PKG_ARGV = [['-s', 'alpha', '-s', 'bravo', '-s', 'charlie', '-s', 'alpha/'], ['-s', 'charlie', '-s', 'alpha', '-s', 'bravo'],
@@ -441,9 +507,9 @@ def extra_evidence(tier):
 _PP = [('sA', 'int'), ('sB', 'int'), ('sC', 'int'), ('seed_given', 'bool'), ('seed', 'int'), ('clock', 'int')] + [('r%d' % i, 'int') for i in range(6)]
 _PC = ', '.join(n for n, _ in _PP)
 _PB = '0 <= sA <= 4 and 0 <= sB <= 3 and 0 <= sC <= 2 and clock >= 0 and ' + ' and '.join('r%d >= 0' % i for i in range(6))
-_PM = [('mode', 'int'), ('sA', 'int'), ('sB', 'int'), ('seed_given', 'bool')] + [('r%d' % i, 'int') for i in range(5)]
+_PM = [('mode', 'int'), ('sA', 'int'), ('sB', 'int'), ('seed_given', 'bool')] + [('r%d' % i, 'int') for i in range(5)] + [('spell', 'int')]
 _MC = ', '.join(n for n, _ in _PM)
-_MB = '0 <= mode < %d and 0 <= sA <= 3 and 2 <= sB <= 3 and ' % len(MODES) + ' and '.join('r%d >= 0' % i for i in range(5))
+_MB = '0 <= spell <= 2 and (seed_given or spell == 0) and 0 <= mode < %d and 0 <= sA <= 3 and 2 <= sB <= 3 and ' % len(MODES) + ' and '.join('r%d >= 0' % i for i in range(5))
 
 
 def _vp(**kw):
@@ -453,7 +519,7 @@ def _vp(**kw):
 
 
 def _vm(**kw):
-    v = dict(mode=0, sA=2, sB=2, seed_given=True, r0=0, r1=0, r2=0, r3=0, r4=0)
+    v = dict(mode=0, sA=2, sB=2, seed_given=True, r0=0, r1=0, r2=0, r3=0, r4=0, spell=0)
     v.update(kw)
     return v
 
@@ -491,12 +557,21 @@ SPEC = {
          'timeout': {'quick': 120, 'thorough': 120},
          'fidelity': [dict(v=0)]},
         {'name': 'modes', 'fn': 'modes', 'params': _PM, 'call': _MC,
-         'bounds': {'quick': _MB + ' and sB == 2 and mode <= 4', 'thorough': _MB},
+         'bounds': {'quick': _MB + ' and sB == 2 and mode <= 4 and (spell == 0 or (sA == 2 and mode >= 1 and mode <= 3))', 'thorough': _MB + ' and (spell == 0 or sB == 2)'},
          'slices': {'quick': ['mode == %d and sA == %d' % (m, a) for m in range(5) for a in (0, 2, 3)],
                     'thorough': ['mode == %d and sA == %d and sB == %d' % (m, a, b) for m in range(len(MODES)) for a in range(4) for b in (2, 3)]},
          'reach': 'modes_reach', 'reach_bounds': {'quick': _MB + ' and mode == 2 and sA == 2 and sB == 2 and seed_given',
                                                   'thorough': _MB + ' and mode == 2 and sA == 2 and sB == 2 and seed_given'},
          'timeout': {'quick': 300, 'thorough': 850},
-         'fidelity': [_vm(), _vm(mode=2, r0=1, r1=1), _vm(mode=3, sA=3, r0=2, r1=1, r2=1, r3=1)]},
+         'fidelity': [_vm(), _vm(mode=2, r0=1, r1=1), _vm(mode=3, sA=3, r0=2, r1=1, r2=1, r3=1), _vm(mode=2, spell=1, r0=1), _vm(mode=1, spell=2, r1=1)]},
+        {'name': 'unitsel', 'fn': 'unitsel', 'params': [('mode', 'int'), ('sU', 'int'), ('sZ', 'int')] + [('r%d' % i, 'int') for i in range(5)],
+         'call': 'mode, sU, sZ, r0, r1, r2, r3, r4',
+         'bounds': {'quick': '0 <= mode < %d and 0 <= sU <= 3 and 2 <= sZ <= 3 and sZ == 2 and sU <= 2 and ' % len(USEL) + ' and '.join('r%d >= 0' % i for i in range(5)),
+                    'thorough': '0 <= mode < %d and 0 <= sU <= 3 and 2 <= sZ <= 3 and ' % len(USEL) + ' and '.join('r%d >= 0' % i for i in range(5))},
+         'slices': {'quick': ['mode == %d' % m for m in range(len(USEL))], 'thorough': ['mode == %d and sU == %d' % (m, u) for m in range(len(USEL)) for u in range(4)]},
+         'reach': 'unitsel_reach', 'reach_bounds': {'quick': 'mode == 0 and sU == 2 and sZ == 2 and ' + ' and '.join('r%d >= 0' % i for i in range(5)),
+                                                    'thorough': 'mode == 0 and sU == 2 and sZ == 2 and ' + ' and '.join('r%d >= 0' % i for i in range(5))},
+         'timeout': {'quick': 400, 'thorough': 1700},
+         'fidelity': [dict(mode=0, sU=2, sZ=2, r0=1, r1=0, r2=1, r3=5, r4=2), dict(mode=3, sU=3, sZ=3, r0=0, r1=1, r2=2, r3=0, r4=1), dict(mode=4, sU=0, sZ=2, r0=1, r1=1, r2=1, r3=1, r4=1)]},
     ],
 }
